@@ -229,6 +229,10 @@ pub fn gen_plan(focus: &str, seed: u64, thorough: bool, pool: &[Pos]) -> BoardPl
         };
         ops.push(op);
     }
+    if focus == "C13" && rng.chance(1, 3) {
+        // the start position itself (e.p. square still set, rare pin shapes of the pool) is probed first
+        ops.insert(0, Op::ProbeAll);
+    }
     BoardPlan { focus: focus.to_string(), start_fen: start.to_fen(), ops }
 }
 
